@@ -346,7 +346,7 @@ class Add(Linop):
         output = 0
         with backend.get_device(input):
             for linop in self.linops:
-                output += linop(input)
+                output = output + linop(input)
 
         return output
 
@@ -502,7 +502,8 @@ class Hstack(Linop):
                     end = self.indices[n]
 
                 if self.axis is None:
-                    output += linop(input[start:end].reshape(linop.ishape))
+                    output = output + linop(
+                        input[start:end].reshape(linop.ishape))
                 else:
                     ndim = len(linop.ishape)
                     axis = self.axis % ndim
@@ -513,7 +514,7 @@ class Hstack(Linop):
                         + [slice(None)] * (ndim - axis - 1)
                     )
 
-                    output += linop(input[slc])
+                    output = output + linop(input[slc])
 
             return output
 
